@@ -336,6 +336,10 @@ def stream_files(ctx):
     if ctx.drift:
         nh = max(nh, 250)
     names = ['a', 'a.data', 'b', 'op_2.data', 'metadata', 'x.dat']
+    # stems that end in a character of the suffix '.data' (a strip()-style removal of the suffix would eat them), with and
+    # without the suffix, several of them in every directory
+    suffix_names = ['opd', 'opd.data', 'opa', 'opa.data', 'opt', 'opt.data', 'op.', 'op..data', 'op', 'op.data', 'dat', 'dat.data',
+                    'data.data', 'a.dat.data', 'tada', 'tada.data']
     base = tempfile.mkdtemp(prefix='ofv_c20_', dir=os.environ.get('TMPDIR'))
     try:
         file_path_and_rejections(ctx, s, of, ou, base)
@@ -343,14 +347,18 @@ def stream_files(ctx):
             d = os.path.join(base, 'h%d' % h)
             os.mkdir(d)
             cls_pool = [rng.choice(CLASSES) for _ in range(2)]
+            if h % 3 == 1:
+                names_h = rng.sample(suffix_names, 6)
+            else:
+                names_h = names + rng.sample(suffix_names, 2)
             steps = []
             for _ in range(rng.randint(2, 10)):
                 if rng.random() < 0.55:
                     cls = rng.choice(cls_pool)
                     op = rand_operator(rng, of, numpy, cls)
-                    steps.append(['save', cls, op, rng.choice(names), rng.random() < 0.5, rng.random() < 0.5])
+                    steps.append(['save', cls, op, rng.choice(names_h), rng.random() < 0.5, rng.random() < 0.5])
                 else:
-                    steps.append(['load', rng.choice(names), rng.random() < 0.5])
+                    steps.append(['load', rng.choice(names_h), rng.random() < 0.5])
                 if rng.random() < 0.2 and steps[-1][0] == 'save':
                     steps.append(['modify', steps[-1][3], steps[-1][5]])
                     steps.append(['load', steps[-2][3], steps[-2][5]])
@@ -371,7 +379,8 @@ def file_path_and_rejections(ctx, s, of, ou, base):
     """get_file_path (incl. the default directory), empty names, operators save_operator must refuse"""
     import sympy
     from openfermion.config import DATA_DIRECTORY
-    names = ['a', 'a.data', '.data', 'data', 'x.dat', 'adata', 'a.data.data', 'a.DATA', 'dir/a', 'a b', '12345', 'abcd', 'abcde']
+    names = ['a', 'a.data', '.data', 'data', 'x.dat', 'adata', 'a.data.data', 'a.DATA', 'dir/a', 'a b', '12345', 'abcd', 'abcde',
+             'opd', 'opd.data', 'opa', 'opa.data', 'opt', 'opt.data', 'op.', 'op..data', 'dat', 'data.data', 'tada', 'd', 't.data']
     mo = ctx.driver.run([{'op': 'c20.file_path', 'name': n, 'dir': base} for n in names + ['']])
     for n, m in zip(names + [''], mo):
         c = {'file_name': n, 'call': 'get_file_path'}
@@ -436,6 +445,7 @@ def run_history(ctx, s, of, ou, d, steps):
     abstract = {}          # normalised name -> (plain, cls, copy of the operator as it was when saved)
     live = {}              # normalised name -> (cls, the operator object that was saved)
     last_loaded = None
+    listings = []
     results = []
     msteps = []
     texts = []
@@ -537,6 +547,11 @@ def run_history(ctx, s, of, ou, d, steps):
                                       {'step': len(results), 'plain_text': plain, 'class': [res['cls'], cls0],
                                        'first_differences(term, loaded, saved)': diff})
         results.append(res)
+        listings.append(sorted(dir_state(d)))
+        # Spec: the directory holds exactly one file per name saved so far, called <name>.data (suffix added iff missing)
+        if listings[-1] != sorted(abstract):
+            s.violate('the directory listing is not the set of saved names (each with the .data suffix exactly once)', case,
+                      {'step': len(results) - 1, 'listing': listings[-1], 'expected': sorted(abstract)})
     s.case(case)
     s.count('history-length:%d' % len(results))
     # Model replay
@@ -549,6 +564,9 @@ def run_history(ctx, s, of, ou, d, steps):
             (r2.get('cls') == mr.get('cls') and (r2['ok'] is None or canon_op_json(r2['ok']) == canon_op_json(mr['ok'])))
         if not ok:
             s.disagree('history step %d (%s)' % (i, case['steps'][i][0]), case, r, mr)
+            break
+        if sorted(os.path.basename(p_) for p_ in listing) != listings[i]:
+            s.disagree('directory listing after history step %d' % i, case, listings[i], sorted(os.path.basename(p_) for p_ in listing))
             break
 
 
@@ -736,6 +754,44 @@ def stream_molecule(ctx):
                             break
             except Exception as e:  # noqa: BLE001
                 s.violate('MolecularData edit-and-save raised', c, repr(e))
+        # ---- file names: stems that end in a character of '.hdf5', with and without the extension, several per directory
+        stems = ['h2_run5', 'lih_d', 'lih_f', 'mol_h', 'mol.', 'water55', 'x', 'hdf5', 'h', 'd5f', 'mol.hdf', 'a.b', 'ffff', 'run.5']
+        rng.shuffle(stems)
+        for with_ext in (True, False):
+            dname = os.path.join(base, 'names_ext' if with_ext else 'names_plain')
+            os.mkdir(dname)
+            geom = [('H', (0.0, 0.0, 0.0)), ('H', (0.0, 0.0, 0.7414))]
+            saved = {}
+            for i, stem in enumerate(stems):
+                given = stem + ('.hdf5' if with_ext else '')
+                c = {'call': 'MolecularData file name', 'filename': given, 'stems_saved_before': sorted(saved)}
+                s.case(c)
+                s.count('oracle:file-name')
+                try:
+                    m = MolecularData(geom, 'sto-3g', 1, filename=os.path.join(dname, given))
+                    m.hf_energy = -1.0 - i
+                    m.save()
+                except Exception as e:  # noqa: BLE001
+                    s.violate('MolecularData with an explicit file name raised', c, repr(e))
+                    continue
+                saved[stem] = -1.0 - i
+                if m.filename != os.path.join(dname, stem):
+                    s.violate('MolecularData.filename is not the given name without the .hdf5 extension', c, {'filename': m.filename})
+                listing = sorted(os.listdir(dname))
+                if listing != sorted(k_ + '.hdf5' for k_ in saved):
+                    s.violate('the directory does not hold exactly one <stem>.hdf5 per saved molecule', c,
+                              {'listing': listing, 'expected': sorted(k_ + '.hdf5' for k_ in saved)})
+            for stem, e0 in saved.items():
+                for given in (stem, stem + '.hdf5'):
+                    c = {'call': 'MolecularData reload by file name', 'filename': given, 'stems_saved': sorted(saved)}
+                    s.case(c)
+                    try:
+                        m2 = MolecularData(filename=os.path.join(dname, given))
+                        if m2.hf_energy is None or float(m2.hf_energy) != e0 or m2.filename != os.path.join(dname, stem):
+                            s.violate('reloading by file name returns another molecule', c,
+                                      {'hf_energy': repr(m2.hf_energy), 'saved': e0, 'filename': m2.filename})
+                    except Exception as e:  # noqa: BLE001
+                        s.violate('a molecule saved under this name cannot be reloaded', c, repr(e))
     finally:
         shutil.rmtree(base, ignore_errors=True)
     return s
